@@ -95,7 +95,7 @@ def replay(case):
     global WHICH
     WHICH = case.get('image', 'k')
     s = case['scenario']
-    sc = Scenario(s['name'], [_t(o) for o in s['setup']], _t(s['op']), s.get('config'), universe=None)
+    sc = Scenario(s['name'], [_t(o) for o in s['setup']], _t(s['op']), s.get('config'), universe=None, thresholds=tuple(s['thresholds']) if s.get('thresholds') else None)
     from ..crashx import universe5
     sc.universe = universe5()
     out = _task(sc)
